@@ -37,6 +37,7 @@ props! {
     "C16" => props::c16::C16,
     "C17" => props::c17::C17,
     "C18" => props::c18::C18,
+    "C19" => props::c19::C19,
 }
 
 fn main() {
